@@ -883,6 +883,48 @@ fn c07t_contains_includes_i16() {
     kani::cover!(!a.intersects(&b));
 }
 
+// thorough tier: C15 at i16 (same specification as at i8, written out for i16)
+fn expected_cmp_i16(a: &Interval<i16>, b: &Interval<i16>) -> Option<Ordering> {
+    let lo = |i: &Interval<i16>| match i { Interval::TwoSided(l, _) | Interval::UpperOneSided(l) => Some(*l), _ => None };
+    let hi = |i: &Interval<i16>| match i { Interval::TwoSided(_, h) | Interval::LowerOneSided(h) => Some(*h), _ => None };
+    let same = match (a, b) {
+        (Interval::TwoSided(l1, h1), Interval::TwoSided(l2, h2)) => l1 == l2 && h1 == h2,
+        (Interval::UpperOneSided(l1), Interval::UpperOneSided(l2)) => l1 == l2,
+        (Interval::LowerOneSided(h1), Interval::LowerOneSided(h2)) => h1 == h2,
+        _ => false,
+    };
+    if same { Some(Ordering::Equal) }
+    else if matches!((hi(a), lo(b)), (Some(h), Some(l)) if h <= l) { Some(Ordering::Less) }
+    else if matches!((hi(b), lo(a)), (Some(h), Some(l)) if h <= l) { Some(Ordering::Greater) }
+    else { None }
+}
+#[kani::proof]
+fn c15t_partial_cmp_matches_spec_i16() {
+    let a = any_interval_i16(any_kind());
+    let b = any_interval_i16(any_kind());
+    let r = a.partial_cmp(&b);
+    assert!(r == expected_cmp_i16(&a, &b));
+    assert!((r == Some(Ordering::Less)) == (b.partial_cmp(&a) == Some(Ordering::Greater)));
+    assert!((a < b) == (r == Some(Ordering::Less)) && (a > b) == (r == Some(Ordering::Greater)));
+    kani::cover!(r == Some(Ordering::Less));
+    kani::cover!(r.is_none());
+}
+#[kani::proof]
+fn c15t_transitive_i16() {
+    let a = any_interval_i16(any_kind());
+    let b = any_interval_i16(any_kind());
+    let c = any_interval_i16(any_kind());
+    if a < b && b < c { assert!(a < c); kani::cover!(true); }
+}
+// thorough tier: C14 constructor at i16 and i64
+#[kani::proof]
+fn c14t_new_wellformed_i16_i64() {
+    let (l, h): (i16, i16) = (kani::any(), kani::any());
+    match Interval::new(l, h) { Ok(i) => assert!(l <= h && i == Interval::TwoSided(l, h)), Err(IntervalError::InvalidBounds) => assert!(l > h), Err(_) => assert!(false) }
+    let (l, h): (i64, i64) = (kani::any(), kani::any());
+    match Interval::new(l, h) { Ok(i) => { assert!(l <= h && i == Interval::TwoSided(l, h)); kani::cover!(l == h); } Err(IntervalError::InvalidBounds) => { assert!(l > h); kani::cover!(true); } Err(_) => assert!(false) }
+}
+
 fn any_interval_f32(kind: u8) -> Interval<f32> {
     let a: f32 = kani::any();
     let b: f32 = kani::any();
